@@ -1,6 +1,7 @@
 import EqsigVerif.Model.Frequency
 import EqsigVerif.Lemmas.Cplx
 import Mathlib.Algebra.Order.Field.Basic
+import Mathlib.Algebra.Order.Ring.Rat
 import Mathlib.Tactic.Ring
 import Mathlib.Tactic.Linarith
 /-!
@@ -10,6 +11,10 @@ set_option linter.unusedSectionVars false
 set_option linter.unusedVariables false
 namespace EqsigVerif.Model.Frequency
 open EqsigVerif EqsigVerif.Cplx EqsigVerif.Wire Finset
+
+/-- the real subfield as a (degenerate) instance of `CxLike`, for concrete examples over `ℚ` -/
+@[reducible] def ratCxLike : CxLike ℚ ℚ :=
+  { ofReal := id, conj := id, re := id, im := fun _ => 0, normSq := fun x => x * x }
 
 /-! ### transform length -/
 
